@@ -459,4 +459,15 @@ EXPLANATION = EXPLANATION + (" (R8) a retransmission is never refused for being 
                              "number it has no record of (including numbers older than the window - the flip side of the known finding C04.R1), and _recv_message "
                              "drops a message before dispatch only in the handler of that test.")
 
-RULES = [("C05.R6", r6), ("C05.R1", r1), ("C05.R2", r2), ("C05.R3", r3), ("C05.R4", r4), ("C05.R5", r5), ("C05.R7", r7), ("C05.R8", r8)]
+
+def r_shared_r9(ctx):
+    """a queued message reaches the peer as it was written, with its own type, number and bytes (shared C09.R1, C09.R2): a message decoded under another type or number is not delivered"""
+    from . import c09 as _m
+    from .c02 import _Sub
+    for _f in ['r1', 'r2']:
+        getattr(_m, _f)(_Sub(ctx, "C05.R9"))
+
+
+EXPLANATION = EXPLANATION + ' (R9) a queued message reaches the peer as it was written, with its own type, number and bytes (shared C09.R1, C09.R2): a message decoded under another type or number is not delivered.'
+
+RULES = [("C05.R6", r6), ("C05.R1", r1), ("C05.R2", r2), ("C05.R3", r3), ("C05.R4", r4), ("C05.R5", r5), ("C05.R7", r7), ("C05.R8", r8), ("C05.R9", r_shared_r9)]
